@@ -1,5 +1,7 @@
 // ---- std items that tonic names by their full path (the generated file is a crate root, so `std::..` resolves here) ----
 pub mod std {
+    // everything not shimmed below is the real std
+    pub use ::std::{mem, cmp, fmt, marker, ops, option, result, convert, time, future, pin, task, borrow, collections, sync, num};
     pub mod str {
         // A-std-str-02: core::str::from_utf8 succeeds exactly on valid UTF-8 and decodes it
         use crate::*;
